@@ -432,6 +432,12 @@ def gen_scenario(seed: int, p: dict | None = None) -> dict:
         T["reference"] = str(np.datetime64("1900-01-01T00:00:00", "s")
                              + np.timedelta64(s.randint(0, 45600), "D")
                              + np.timedelta64(s.randint(0, 86399), "s"))
+    if T.get("reference"):
+        ra = stream(seed, "gen.ref_aligned")
+        if ra.chance(0.5):
+            # a reference time on the model's own step lattice (a whole number of steps, not of output periods, away)
+            k = ra.randint(-2000, min(400000, int(2.5e9 // dt)))     # at most some eighty years before the run
+            T["reference"] = str(start - np.timedelta64(k * dt, "s"))
     sc["time"] = T
     if stream(seed, "gen.native_times").chance(p.get("p_native_times", 0.3)):
         sc["native_times"] = True
